@@ -39,7 +39,7 @@ def cases(tier, seed):
                    final=rnd.choice(['real', 'real', 'real', 'failure', 'cancel', 'warning']),
                    sched=rnd.choice(['uniform', 'user-ahead', 'stall']), align=rnd.random() < 0.35,
                    others=rnd.choice([0, 0, 1, 2]), fine=rnd.random() < 0.4,
-                   seed=seed * 100003 + i)
+                   pre_store=rnd.random() < 0.25, seed=seed * 100003 + i)
 
 
 _cases_base = cases
@@ -59,6 +59,9 @@ def cases(tier, seed):   # noqa: F811
         yield c
 
 
+CT_STORE = '1.2.840.10008.5.1.4.1.1.2'
+
+
 def _ds(rnd, k):
     import pydicom
     ds = pydicom.Dataset()
@@ -76,7 +79,9 @@ def run_case(case):
     import pynetdicom2
     import pydicom
     rnd = random.Random('c16r/%s' % case['seed'])
-    world = SimWorld('c16/%s' % case['seed'], policy='random')
+    pre_store = bool(case.get('pre_store')) and case['final'] == 'real' and \
+        case['variant'] != 'c_find'
+    world = SimWorld('c16/%s' % case['seed'], policy='random', with_fs=pre_store)
     viol = []
     ts = TSS[case['ts']]
     variant = case['variant']
@@ -131,6 +136,15 @@ def run_case(case):
             srv = world.make_ae(Srv, 'SRV', 11112, srv_ts, case['smax'])
             srv.timeout = 300
             srv.add_scp(sopclass.qr_find_scp).add_scp(sopclass.modality_work_list_scp)
+            if pre_store:
+                # the same association first carries a C-STORE that is received into a file:
+                # nothing of that message may linger when the query (in memory) arrives
+                def store2(asce, ctx, msg):
+                    return sopclass.storage_scp(asce, ctx, msg)
+                store2.sop_classes = [CT_STORE]
+                store2.store_in_file = True
+                srv.add_scp(store2)
+                srv.on_receive_store = lambda context, ds: 0
             world.serve_ae(srv, ADDR)
         else:
             def on_message(peer, m):
@@ -163,7 +177,15 @@ def run_case(case):
                     cli = world.make_ae(applicationentity.ClientAE, 'CLI', [ts], case['cmax'])
                     cli.timeout = 300
                     cli.add_scu(sopclass.qr_find_scu).add_scu(sopclass.modality_work_list_scu)
+                    if pre_store:
+                        cli.add_scu(sopclass.storage_scu, [CT_STORE])
                     with cli.request_association(remote) as assoc:
+                        if pre_store:
+                            inst = pydicom.Dataset()
+                            inst.SOPClassUID = CT_STORE
+                            inst.SOPInstanceUID = '1.2.826.0.1.16.%d' % (case['seed'] % 100000)
+                            inst.PatientName = 'STORED' + 'x' * (case['seed'] % 300)
+                            out['store_status'] = int(assoc.get_scu(CT_STORE)(inst, 5))
                         for d, st in assoc.get_scu(sop)(query, 7):
                             got.append((d, st))
                 out['done'] = True
